@@ -89,6 +89,13 @@ func (v *visitor) VisitImplicitCondition(ctx *gen.ImplicitConditionContext) any 
 
 	asURN, _ := urns.Parse(value)
 
+	// only treat the value as a URN if it has a real scheme.. lots of things have colons in them
+	if asURN != urns.NilURN {
+		if scheme, _, _, _ := asURN.ToParts(); !urns.IsValidScheme(scheme) {
+			asURN = urns.NilURN
+		}
+	}
+
 	if v.env.RedactionPolicy() == envs.RedactionPolicyURNs {
 		num, err := strconv.Atoi(value)
 		if err == nil {
